@@ -60,6 +60,9 @@ class Ctx:
         self.violations.append((path, failing_input, what))
 
     def finish(self, coverage, assumptions):
+        # a broken proof obligation for which the search DID find a failing input is reported through that input
+        if any(fi for _, fi, _ in self.violations):
+            self.violations = [v for v in self.violations if v[1] or v[2] != "proof obligation no longer checks"]
         for line in self.known:
             print(line)
         for path, fi, what in self.violations:
